@@ -111,7 +111,7 @@ def gen_call(r, F, mode, dtype):
     return dict(X=X.tolist(), spec=spec)
 
 
-KEYS = [None, None, None, "stats", "a", "b", "arr_0", "arr_1", "arr_3", "arr_01", "x.y"]
+KEYS = [None, None, None, "stats", "a", "b", "arr_0", "arr_1", "arr_3", "arr_01", "x.y", "0", "7", "1089"]   # names made of digits are names
 
 
 def gen_foreign_raw(r, F):
@@ -193,6 +193,18 @@ def corpus():
                             dict(op="L", key=None), dict(op="L", key="arr_1"),
                             dict(op="S", key="stats", compress=False, overwrite=False), dict(op="L", key="stats"),
                             dict(op="L", key=None)]))
+    # a reloaded object saved back onto the file it was loaded from, then reloaded (the loader must not keep the file
+    # open / mapped), for every kind of target; and archive keys that consist of digits
+    for kind, suf in (("npy", ".npy"), ("raw", ".bin"), ("npz", ".npz")):
+        cs.append(dict(kind=kind, suffix=suf, mode="neg", dtype="f64", F=2, nv=True, probe=[[-10.0, 2.5]],
+                       ops=[dict(op="A", call=neg), dict(op="S", key=None, compress=False, overwrite=True), dict(op="L", key=None),
+                            dict(op="S", key=None, compress=False, overwrite=False), dict(op="L", key=None),
+                            dict(op="S", key=None, compress=False, overwrite=False), dict(op="L", key=None)]))
+    cs.append(dict(kind="npz", suffix=".npz", mode="int", dtype="f64", F=2, nv=True, probe=[[1.0, 2.0]],
+                   ops=[dict(op="A", call=neg), dict(op="S", key="1089", compress=False, overwrite=True), dict(op="L", key="1089"),
+                        dict(op="A", call=more), dict(op="S", key="0", compress=True, overwrite=True), dict(op="L", key="0"),
+                        dict(op="S", key=None, compress=False, overwrite=True), dict(op="L", key="0"), dict(op="L", key=None),
+                        dict(op="L", key="1089")]))
     cs.append(dict(kind="npz", suffix=".npz", mode="int", dtype="f64", F=2, nv=False, probe=[[1.0, 2.0]],
                    ops=[dict(op="P", entries=[["arr_0", 3], ["b", 4], ["arr_2", 5]]), dict(op="A", call=neg),
                         dict(op="S", key=None, compress=True, overwrite=True), dict(op="L", key="arr_1"),
